@@ -27,6 +27,9 @@ ASSUMPTIONS = [
     "the +-120 s windows around leap seconds are outside the quantifier",
     "arithmetic and DateRange facets use the uniform scales TAI, TT, GPS, and UTC only when no leap "
     "second lies within the touched interval",
+    "daterange_history: one DateRange object modified through its public attributes (the class docstring "
+    "allows manipulation before any computation), the sign of step kept coherent with stop - start as the "
+    "constructor demands; list / len / membership are recomputed from the current attributes after every op",
     "DateRange membership is interval membership (the docstring example is off-grid), zero-length "
     "ranges are generated for positive steps only",
     "EOP configurations per shard: real tables / zero corrections with real leap seconds / no database "
@@ -614,6 +617,156 @@ def at(us, off, L):
     return Date(gd.us_to_datetime(readings(us)[L] + off), scale=L)
 
 
+# ------------------------------------------------------------------ 8b  one DateRange object, modified in place
+
+STEP_CHOICES = [1, 7, 1000, US, 60 * US, 3600 * US, US_DAY, 86399 * US + 999999]
+
+
+@st.composite
+def range_history(draw, shard, tier):
+    leaps = leap_days()
+    us = draw(gd.instants(leaps, lo_mjd=gd.LO_MJD + 90, hi_mjd=gd.HI_MJD - 90))
+    labels = ["TAI", "TT", "GPS"] + (["UTC"] if gd.leap_free(us - 80 * US_DAY, us + 80 * US_DAY, leaps) else [])
+    lab = st.sampled_from(labels)
+
+    def span_spec():
+        return dict(n=draw(st.integers(0, 30)), rem=draw(st.sampled_from([0, 0, 1]) | gd.mixed_int(0, US_DAY)))
+
+    init = dict(S=draw(lab), S2=draw(lab), step=draw(st.sampled_from(STEP_CHOICES) | gd.mixed_int(1, US_DAY)),
+                sign=draw(st.sampled_from([1, -1])), inclusive=draw(st.booleans()), **span_spec())
+    ops = []
+    for _ in range(draw(st.integers(2, 8))):
+        k = draw(st.sampled_from(["set_inclusive", "set_start", "set_stop", "set_step", "reverse", "reverse",
+                                  "iterate_partially", "len", "contains"]))
+        op = dict(op=k)
+        if k == "set_inclusive":
+            op["value"] = draw(st.booleans())
+        elif k in ("set_start", "set_stop"):
+            op.update(span_spec(), S=draw(lab))
+        elif k == "set_step":
+            op["step"] = draw(st.sampled_from(STEP_CHOICES) | gd.mixed_int(1, US_DAY))
+        elif k == "iterate_partially":
+            op["take"] = draw(st.integers(0, 5))
+        elif k == "contains":
+            op["probe"] = draw(st.sampled_from(["start", "stop", "start-1", "start+1", "stop-1", "stop+1", "mid"]))
+            op["S"] = draw(lab)
+        ops.append(op)
+    return dict(us=us, init=init, ops=ops)
+
+
+def _span_of(spec, step, sign):
+    """Signed span: n whole steps plus a remainder below one step (never zero for a backward range:
+    the constructor accepts an empty span only with a positive step)."""
+    rem = spec["rem"] % abs(step)
+    span = spec["n"] * abs(step) + rem
+    if sign < 0 and span == 0:
+        span = 1
+    return sign * span
+
+
+def check_range_history(case):
+    from beyond.dates import Date
+
+    us, init = case["us"], case["init"]
+    m = dict(start=0, step=init["sign"] * init["step"], inclusive=init["inclusive"])
+    m["stop"] = _span_of(init, m["step"], init["sign"])
+    rng = Date.range(at(us, 0, init["S"]), at(us, m["stop"], init["S2"]), _dt.timedelta(microseconds=m["step"]),
+                     inclusive=init["inclusive"])
+    done = []
+
+    def model():
+        out, k = [], 0
+        span = m["stop"] - m["start"]
+        while True:
+            off = k * m["step"]
+            if m["step"] > 0:
+                ok = off <= span if m["inclusive"] else off < span
+            else:
+                ok = off >= span if m["inclusive"] else off > span
+            if not ok or k > 100:
+                return out
+            out.append(m["start"] + off)
+            k += 1
+
+    def member(off):
+        lo, hi = min(m["start"], m["stop"]), max(m["start"], m["stop"])
+        if m["inclusive"]:
+            return lo <= off <= hi
+        return (m["start"] <= off < m["stop"]) if m["step"] > 0 else (m["stop"] < off <= m["start"])
+
+    def invariant(after):
+        want = model()
+        desc = (f"DateRange after {done + [after]}: start {rng.start}, stop {rng.stop}, step {rng.step!r}, "
+                f"inclusive={rng.inclusive}")
+        got = []
+        for i, x in enumerate(rng):
+            got.append(td_us(x - base))
+            if i > len(want) + 3:
+                break
+        if got != want:
+            raise Violation("range-history-iter", f"{desc}: iteration gives {len(got)} dates "
+                                                  f"{got[:3]}..., the current attributes give {len(want)} dates {want[:3]}...",
+                            got=len(got), model=len(want))
+        if len(rng) != len(want):
+            raise Violation("range-history-len", f"{desc}: len = {len(rng)}, {len(want)} dates are iterated / expected")
+        for off in want[:3] + want[-2:]:
+            if at(us, off, "TAI") not in rng:
+                raise Violation("range-history-contains", f"{desc}: iterated date at {off} us is not `in` the range")
+        for off in (m["start"], m["stop"], m["start"] - 1, m["start"] + 1, m["stop"] - 1, m["stop"] + 1):
+            if (at(us, off, "GPS") in rng) != member(off):
+                raise Violation("range-history-contains", f"{desc}: membership of the date at {off} us is "
+                                                          f"{at(us, off, 'GPS') in rng}, attributes say {member(off)}")
+
+    base = at(us, 0, "TAI")
+    invariant("construction")
+    mutated = False
+    for op in case["ops"]:
+        k = op["op"]
+        sign = 1 if m["step"] > 0 else -1
+        if k == "set_inclusive":
+            rng.inclusive = op["value"]
+            m["inclusive"] = op["value"]
+            mutated = True
+        elif k == "set_stop":
+            m["stop"] = m["start"] + _span_of(op, m["step"], sign)
+            rng.stop = at(us, m["stop"], op["S"])
+            mutated = True
+        elif k == "set_start":
+            m["start"] = m["stop"] - _span_of(op, m["step"], sign)
+            rng.start = at(us, m["start"], op["S"])
+            mutated = True
+        elif k == "set_step":
+            m["step"] = sign * op["step"]
+            if abs(m["stop"] - m["start"]) // abs(m["step"]) > 60:
+                m["step"] = sign * max(op["step"], abs(m["stop"] - m["start"]) // 40 + 1)
+            rng.step = _dt.timedelta(microseconds=m["step"])
+            mutated = True
+        elif k == "reverse":
+            if m["stop"] == m["start"]:
+                done.append("reverse(skipped: empty span)")
+                continue
+            rng.start, rng.stop, rng.step = rng.stop, rng.start, -rng.step
+            m["start"], m["stop"], m["step"] = m["stop"], m["start"], -m["step"]
+            mutated = True
+        elif k == "iterate_partially":
+            it = iter(rng)
+            for _ in range(op["take"]):
+                if next(it, None) is None:
+                    break
+        elif k == "len":
+            len(rng)
+        elif k == "contains":
+            span = m["stop"] - m["start"]
+            off = {"start": m["start"], "stop": m["stop"], "start-1": m["start"] - 1, "start+1": m["start"] + 1,
+                   "stop-1": m["stop"] - 1, "stop+1": m["stop"] + 1, "mid": m["start"] + span // 2}[op["probe"]]
+            if (at(us, off, op["S"]) in rng) != member(off):
+                raise Violation("range-history-contains", f"DateRange after {done}: membership of {op['probe']} wrong")
+        done.append(k)
+        invariant(k)
+    cls = [f"eop:{cfg()}"] + sorted({o["op"] for o in case["ops"]})
+    return dict(nt=mutated, cls=cls)
+
+
 # ------------------------------------------------------------------ 9  constructors
 
 
@@ -687,6 +840,9 @@ FACETS = [
     Facet("daterange_model", range_case, check_range, setup=setup_conv,
           rule="negative step, non-dividing step, mixed labels or instant within 90 s of 0h UTC",
           quick=(8, 500), thorough=(32, 2500)),
+    Facet("daterange_history", range_history, check_range_history, setup=setup_conv,
+          rule="the range object was modified in place at least once (inclusive / start / stop / step / reversed)",
+          quick=(4, 300), thorough=(16, 2500)),
     Facet("constructors", ctor_case, check_ctor, setup=setup_conv,
           rule="every case: five constructor forms of one reading", quick=(4, 500), thorough=(8, 3000)),
 ]
